@@ -207,6 +207,42 @@ type World struct {
 	NoPost    bool
 	Big       sync.Mutex
 	procNames map[int64]string
+	// last operation announced (facts known before the call into the mint), for crash events
+	// Inline: run the call into the mint on the calling goroutine (crash / error injection by proc)
+	Inline bool
+	// Fault: a storage/Lightning error is being injected into the operation now running
+	Fault     bool
+	LastEv    string
+	LastA     map[string]any
+	LastSince int
+}
+
+// announce records the facts of an operation before the mint is called, so that a crash
+// in the middle of the call can still be described.
+func (w *World) announce(ev string, a map[string]any) {
+	w.evMu.Lock()
+	w.LastEv, w.LastA, w.LastSince = ev, a, w.Net.Seq()
+	w.evMu.Unlock()
+}
+
+// Reborn models a process restart after a crash: a new mint object loaded from the same
+// directory, sharing the Lightning network (which lives outside the process), the registry
+// and the trace.
+func (w *World) Reborn(rotate bool, fee uint) (*World, error, bool, string) {
+	n := &World{Opt: w.Opt, Dir: w.Dir, Net: w.Net, Reg: w.Reg, Ctl: sched.New(), rng: w.rng, OpTimeout: w.OpTimeout,
+		Events: w.Events, Tr: w.Tr, nOp: w.nOp, clock: w.clock}
+	old := w.Node
+	n.Node = &lnmodel.Node{Net: w.Net, Name: old.Name, Scripts: old.Scripts, FeeReservePolicy: old.FeeReservePolicy, Sched: n.Ctl}
+	err, pan, msg := n.guard(func() error { return n.load(rotate, fee) })
+	return n, err, pan, msg
+}
+
+// EmitCrash records what was in flight when the process died (after the restart, so that the
+// projection is the restarted mint's).
+func (w *World) EmitCrash(victim *World, k int, before string, restartOK bool, detail string) {
+	a := map[string]any{"op": victim.LastEv, "a": victim.LastA, "k": k, "before": before,
+		"ln": w.lnFacts(victim.LastSince)}
+	w.emit("crash", a, map[string]any{"ok": restartOK, "panic": false, "detail": detail, "code": 0})
 }
 
 // SetProc names the calling goroutine: events it emits carry that proc name.
@@ -224,6 +260,7 @@ func (w *World) EmitSpan(ev string, a, r map[string]any, c, t int64, proc string
 	w.evMu.Lock()
 	defer w.evMu.Unlock()
 	w.nOp++
+	a["fault"] = false
 	w.Events = append(w.Events, Event{Tr: w.Tr, I: w.nOp, Ev: ev, A: a, R: r, Post: map[string]any{}, C: c, T: t, Proc: proc})
 }
 
@@ -244,7 +281,38 @@ func (r *rng) bytes(n int) []byte {
 	return b
 }
 
-var loadMu sync.Mutex
+// Calls made while a mint is being loaded (start-up rotation) pass through the scheduler of the
+// world that loads it: the load-time wrapper is installed once and finds that world through the
+// loading goroutine's id.
+type loadDispatch struct {
+	mu      sync.Mutex
+	ctl     map[int64]*sched.Controller
+	wrapped map[int64]*dbwrap.MintDB
+}
+
+var dispatch = &loadDispatch{ctl: map[int64]*sched.Controller{}, wrapped: map[int64]*dbwrap.MintDB{}}
+
+type gidSched struct{}
+
+func (gidSched) Point(kind, name string) error {
+	dispatch.mu.Lock()
+	c := dispatch.ctl[sched.Gid()]
+	dispatch.mu.Unlock()
+	if c != nil {
+		return c.Point(kind, name)
+	}
+	return nil
+}
+
+func init() {
+	mint.VerifLoadWrap = func(db storage.MintDB) storage.MintDB {
+		wd := &dbwrap.MintDB{Inner: db, Sched: gidSched{}}
+		dispatch.mu.Lock()
+		dispatch.wrapped[sched.Gid()] = wd
+		dispatch.mu.Unlock()
+		return wd
+	}
+}
 
 // New creates a fresh mint in opt.Dir.
 func New(opt Options) (*World, error) {
@@ -300,18 +368,35 @@ func (w *World) config(rotate bool, fee uint) mint.Config {
 // load (re)loads the mint from w.Dir. The storage is wrapped at load time so that calls made
 // during loading (start-up rotation) pass through the scheduler too.
 func (w *World) load(rotate bool, fee uint) error {
-	loadMu.Lock()
-	var wrapped *dbwrap.MintDB
-	mint.VerifLoadWrap = func(db storage.MintDB) storage.MintDB {
-		wrapped = &dbwrap.MintDB{Inner: db, Sched: w.Ctl}
-		return wrapped
-	}
+	g := sched.Gid()
+	dispatch.mu.Lock()
+	dispatch.ctl[g] = w.Ctl
+	dispatch.mu.Unlock()
+	defer func() {
+		if r := recover(); r != nil {
+			dispatch.mu.Lock()
+			if wd := dispatch.wrapped[g]; wd != nil {
+				wd.Inner.Close()
+			}
+			delete(dispatch.wrapped, g)
+			delete(dispatch.ctl, g)
+			dispatch.mu.Unlock()
+			panic(r)
+		}
+	}()
 	m, err := mint.LoadMint(w.config(rotate, fee))
-	mint.VerifLoadWrap = nil
-	loadMu.Unlock()
+	dispatch.mu.Lock()
+	wrapped := dispatch.wrapped[g]
+	delete(dispatch.wrapped, g)
+	delete(dispatch.ctl, g)
+	dispatch.mu.Unlock()
 	if err != nil {
+		if wrapped != nil {
+			wrapped.Inner.Close()
+		}
 		return err
 	}
+	wrapped.Sched = w.Ctl
 	w.Mint = m
 	w.DB = wrapped
 	w.Raw = wrapped.Inner
@@ -345,7 +430,13 @@ func (w *World) refreshKeysets() error {
 	return nil
 }
 
-func (w *World) ActiveKeyset() *KeysetInfo {
+func (w *World) ActiveKeyset() (ki *KeysetInfo) {
+	defer func() {
+		// a mint left without an active keyset (crash in the middle of a rotation) panics here
+		if r := recover(); r != nil || ki == nil {
+			ki = &KeysetInfo{ID: "kunknown", Real: "00ffffffffffffff"}
+		}
+	}()
 	real := w.Mint.GetActiveKeyset().Id
 	if id, ok := w.Reg.ksByReal[real]; ok {
 		return w.Reg.Keysets[id]
@@ -471,6 +562,7 @@ func (w *World) emit(ev string, a, r map[string]any) *Event {
 	if r == nil {
 		r = map[string]any{"ok": true}
 	}
+	a["fault"] = w.Fault
 	var post map[string]any
 	if w.Conc || w.NoPost {
 		post = map[string]any{}
@@ -514,12 +606,14 @@ func errInfo(err error) map[string]any {
 
 // guard runs fn, converting a panic or a hang into facts.
 func (w *World) guard(fn func() error) (err error, panicked bool, panicMsg string) {
-	if w.Conc {
+	if w.Conc || w.Inline {
 		// already on the operation's own (scheduled) goroutine: the mint must be called from it.
 		// The world lock serialises registry access between concurrent operations and is
 		// released for the duration of the call into the mint.
-		w.Big.Unlock()
-		defer w.Big.Lock()
+		if w.Conc {
+			w.Big.Unlock()
+			defer w.Big.Lock()
+		}
 		c := w.Tick()
 		func() {
 			defer func() {
